@@ -9,7 +9,7 @@ EXTENDS Integers, Sequences, FiniteSets, TLC, Json, IOUtils
 Rec == ndJsonDeserialize(IOEnv.TRACE)
 VARIABLES l, s
 T(x) == <<x[1], x[2], x[3], x[4]>>
-Init0 == [run |-> -1, subnets |-> <<>>, lat |-> 0, claims |-> {}, wires |-> {}, open |-> {}, done |-> {},
+Init0 == [run |-> -1, subnets |-> <<>>, lat |-> 0, lossfree |-> FALSE, claims |-> {}, wires |-> {}, open |-> {}, done |-> {},
           bad |-> {}, nbad |-> 0, runs |-> 0, events |-> 0]
 Viol(t, e, clause) ==
   IF Cardinality({x \in t.bad : x.clause = clause}) >= 3 THEN [t EXCEPT !.nbad = @ + 1]
@@ -27,7 +27,7 @@ Target(t, m, local, remote) ==
 Owners(t, ip) == {c \in t.claims : c.ip = ip}
 Step(t, e) ==
   LET t0 == [t EXCEPT !.events = @ + 1] IN
-  CASE e.ev = "reset" -> [t0 EXCEPT !.run = e.run, !.runs = @ + 1, !.subnets = e.subnets, !.lat = e.lat,
+  CASE e.ev = "reset" -> [t0 EXCEPT !.run = e.run, !.runs = @ + 1, !.subnets = e.subnets, !.lat = e.lat, !.lossfree = (e.loss = 0 /\ e.only_kth = 0),
                                    !.claims = {}, !.wires = {}, !.open = {}, !.done = {}]
     [] e.ev = "claim" -> [t0 EXCEPT !.claims = @ \cup {[ip |-> T(e.ip), m |-> e.m, mac |-> e.mac]}]
     [] e.ev = "arpwire" -> [t0 EXCEPT !.wires = @ \cup {[oper |-> e.oper, smac |-> e.smac, sip |-> T(e.sip), tip |-> T(e.tip),
@@ -35,7 +35,8 @@ Step(t, e) ==
     [] e.ev = "rstart" ->
          \* resolving also claims the local address (Arp::resolve calls listen)
          [t0 EXCEPT !.open = @ \cup {[rid |-> e.rid, m |-> e.m, mac |-> e.mac, local |-> T(e.local),
-                                      target |-> Target(t, e.m, T(e.local), T(e.remote)), t0 |-> e.t]},
+                                      target |-> Target(t, e.m, T(e.local), T(e.remote)), t0 |-> e.t,
+                                      owned0 |-> Owners(t, Target(t, e.m, T(e.local), T(e.remote))) # {}]},
                     !.claims = @ \cup {[ip |-> T(e.local), m |-> e.m, mac |-> e.mac]}]
     [] e.ev = "rend" ->
          LET r == CHOOSE x \in t.open : x.rid = e.rid
@@ -47,7 +48,11 @@ Step(t, e) ==
              t2 == IF exch /\ e.res < 0 THEN Viol(t1, e, "a request/reply exchange got through but the resolution failed") ELSE t1
              \* (a resolution that failed although the answer to its LAST request was on its way is judged at the end of the
              \* run, when the reply is in the trace: LateExchange)
-             t3 == IF own = {} /\ e.res >= 0 THEN Viol(t2, e, "an address nobody claims was resolved") ELSE t2
+             t3a == IF own = {} /\ e.res >= 0 THEN Viol(t2, e, "an address nobody claims was resolved") ELSE t2
+             \* on a network that loses nothing, an address whose owner had claimed it (and, if it appeared late, announced
+             \* itself) before the resolution started is resolved -- also when an earlier resolution of it failed
+             t3 == IF t.lossfree /\ r.owned0 /\ e.res < 0
+                   THEN Viol(t3a, e, "an address that its owner had claimed before the resolution started was not resolved on a loss-free network") ELSE t3a
              t4 == IF e.t - r.t0 > 2000000 + 4 * t.lat THEN Viol(t3, e, "a resolution took longer than the bounded retry period (10 x 200 ms)") ELSE t3
              \* concurrent resolvers of one address on one machine get the same answer
              t5 == IF \E d \in t.done : d.m = r.m /\ d.target = r.target /\ d.t1 > r.t0 /\ d.res # e.res
